@@ -1,7 +1,7 @@
 from props import COMMON_TRUSTED
 
 SPEC = {
-    "translators": ["tr_variation.py"],
+    "translators": ["tr_variation.py", "tr_type2.py", "tr_cff2inst.py"],
     "harness": "c12",
     "cases": {"quick": 30000, "thorough": 600000},
     "profiles": {"quick": ["debug", "release"], "thorough": ["debug", "release"]},
@@ -18,9 +18,22 @@ SPEC = {
         "the exact value within a stated tolerance (2^-18 for scalars, 1/2 + 0.02 unit for rounded results, violation beyond 1 unit)",
         "modelled, not verified: parsing of ItemVariationStore / HVAR / MVAR / gvar headers / glyf (the harness builds the "
         "bytes from the structured input and the real parsers read them), composite bounding boxes only for un-scaled "
-        "components with simple children, CFF2 blends, cvar, vertical phantom points, name/OS2/head flag updates",
+        "components with simple children, cvar, vertical phantom points, name/OS2/head flag updates, CFF2 Private DICT blends",
+        "translators/tr_type2.py (property C18: constants, dispatch and number formulas of the charstring interpreter) and "
+        "translators/tr_cff2inst.py (regenerates coq/Gen/Cff2InstConsts.v: `impl From<f32> for StackValue` translated as an "
+        "expression, the integer arms of `impl WriteBinary for StackValue`, the joining operator of `impl From<f32> for Fixed`, "
+        "the shape of `impl From<StackValue> for f32`)",
+        "hand-written models coq/Model/Type2.v (charstring interpreter incl. cff2::blend, property C18) and "
+        "coq/Model/Cff2Instance.v (StackValue conversion / encoding, CharStringInstancer::visit per operator): the walk of "
+        "the instancer over a whole charstring (subroutine inlining, which operators are visited with which stack) is tied "
+        "by correspondence only: every glyph of every instance is re-evaluated by the model and compared with the model's "
+        "evaluation of the variable source charstring at the exact scalars (tolerance per coordinate 0.001 + k * (2^-15 + "
+        "M * 2^-19) for the k-th coordinate of the glyph, M = largest coordinate (at least 512); violation beyond one unit more)",
     ],
     "assumptions": [
+        "CFF2: every blended operand default + sum(scalar * delta) is inside the range of a charstring operand "
+        "(|v| <= 32767; outside it the known finding cff2-operand-range applies); flex1 operands are not blended "
+        "(its last operand's direction is a discontinuous function of them)",
         "F2Dot14 coordinates, deltas, point coordinates and metrics are in their integer ranges; glyphs have at most 65535 points",
         "the i16 arithmetic on phantom points (x_min - lsb, pp1 + advance) does not overflow (generated metrics are moderate); "
         "the glyf writer can represent the varied coordinates (consecutive points less than 32768 apart)",
@@ -37,6 +50,14 @@ SPEC = {
             "GlyphVariationData (shared/private/all points, embedded/shared peaks, intermediate regions, mangled bytes); "
             "variations::instance end to end on harness-built fonts (1-3 axes, simple/empty/composite glyphs, gvar, optional HVAR "
             "with/without index maps, optional MVAR, optional vhea) and on three fixture fonts, coordinates at default, axis ends, "
-            "region edges +-1, outside the range, random; distinct = distinct input lines; histogram key = mode-result kind",
+            "region edges +-1, outside the range, random; variations::instance end to end on harness-built variable CFF2 "
+            "fonts (mode c2: 1-2 axes, 1-4 regions incl. intermediate masters and malformed ones, 1-3 ItemVariationData with "
+            "0-3 regions, 1-2 Font DICTs with their own vsindex, explicit vsindex, global/local subroutines up to 2 levels, "
+            "every path operator and hint operator with operands blended with probability 0/25/50/75/100 %, one blend per "
+            "run of operands or split, defaults at the boundaries of the number encodings, 16.16 defaults and deltas, glyphs "
+            "whose blended operands all have the same deltas, long contours, optional HVAR with/without maps, optional MVAR) "
+            "and on the CFF2 fixture (mode c2f: axis minimum / default / maximum, outside, whole and half units, random), "
+            "coordinates at default, strictly between masters, region edges +-1, peaks, outside; "
+            "distinct = distinct input lines; histogram key = mode-result kind (c2/c2f: where the coordinates lie and which metrics tables exist)",
     "search_factor": 3,
 }
